@@ -57,7 +57,7 @@ Print Assumptions C08_parse_agrees_printed_partial.
 Theorem C08_machine_simple : forall x, simpleb x = true ->
   forall fuel' stk s i s' rest,
     elab x s = ROk i s' -> toks s = (flatten x ++ rest)%list ->
-    get_expr (cost x + fuel') stk s = after fuel' stk i s' /\ toks s' = rest.
+    exists e, get_expr (cost x + fuel') stk s = after (fuel' + e) stk i s' /\ toks s' = rest.
 Proof. exact machine_simple. Qed.
 Print Assumptions C08_machine_simple.
 
